@@ -1112,6 +1112,18 @@ Proof.
   reflexivity.
 Qed.
 
+Lemma rgb_arith : forall r g b, r < 256 -> g < 256 -> b < 256 ->
+  let v := r * 65536 + g * 256 + b in
+  (v <=? 4294967295) = true /\ (v / 65536) mod 256 = r /\ (v / 256) mod 256 = g /\ v mod 256 = b.
+Proof.
+  intros r g b Hr Hg Hb v.
+  assert (E1 : v / 65536 = r) by (symmetry; apply (N.div_unique v 65536 r (g * 256 + b)); unfold v; lia).
+  assert (E2 : v / 256 = r * 256 + g) by (symmetry; apply (N.div_unique v 256 (r * 256 + g) b); unfold v; lia).
+  assert (E3 : (r * 256 + g) mod 256 = g) by (symmetry; apply (N.mod_unique _ 256 r g); lia).
+  assert (E4 : v mod 256 = b) by (symmetry; apply (N.mod_unique v 256 (r * 256 + g) b); unfold v; lia).
+  rewrite E1, E2, E3, E4, (N.mod_small r 256) by lia. repeat split; unfold v; lia.
+Qed.
+
 Lemma parse_color_hex : forall r g b, r < 256 -> g < 256 -> b < 256 ->
   parse_color [THash (hex6 r g b)] = Some (r, g, b).
 Proof.
@@ -1136,12 +1148,357 @@ Proof.
   assert (E43 : (hexc (r / 16) =? 43) = false) by (unfold hexc; destruct (r / 16 <? 10); lia).
   rewrite E43. cbn [parse_hex_digits cp mk].
   rewrite Hh1, Hh2, Hh3, Hh4, Hh5, Hh6, Hv1, Hv2, Hv3, Hv4, Hv5, Hv6.
-  set (v := ((((((0 * 16 + r / 16) * 16 + r mod 16) * 16 + g / 16) * 16 + g mod 16) * 16 + b / 16) * 16 + b mod 16)).
-  assert (Ev : v = r * 65536 + g * 256 + b) by (unfold v; lia).
-  assert (Ele : (v <=? 4294967295) = true) by lia. rewrite Ele.
-  assert (E1 : v / 65536 = r) by (symmetry; apply (N.div_unique v 65536 r (g * 256 + b)); lia).
-  assert (E2 : v / 256 = r * 256 + g) by (symmetry; apply (N.div_unique v 256 (r * 256 + g) b); lia).
-  assert (E3 : (r * 256 + g) mod 256 = g) by (symmetry; apply (N.mod_unique _ 256 r g); lia).
-  assert (E4 : v mod 256 = b) by (symmetry; apply (N.mod_unique v 256 (r * 256 + g) b); lia).
-  rewrite E1, E2, E3, E4. rewrite (N.mod_small r 256) by lia. reflexivity.
+  replace ((((((0 * 16 + r / 16) * 16 + r mod 16) * 16 + g / 16) * 16 + g mod 16) * 16 + b / 16) * 16 + b mod 16)
+    with (r * 65536 + g * 256 + b) by (clear - Er Eg Eb; lia).
+  clear - Hr Hg Hb.
+  destruct (rgb_arith r g b Hr Hg Hb) as (Ele & E1 & E2 & E3).
+  rewrite Ele, E1, E2, E3. reflexivity.
 Qed.
+
+(* ------------------------------------------------------------------ *)
+(* 9. declarations, rule sets, style sheets: printer with whitespace parameters *)
+(* the optional whitespace (spaces, tabs, newlines, comments) of one rule set *)
+Record wsp := mkwsp {
+  w_comma : text;   (* after the `,` between selectors *)
+  w_sel : text;     (* before `{` *)
+  w_open : text;    (* after `{` *)
+  w_c1 : text;      (* before `:` *)
+  w_c2 : text;      (* after `:` *)
+  w_imp : text;     (* before `!important` *)
+  w_s1 : text;      (* before `;` *)
+  w_s2 : text;      (* after `;` *)
+  w_close : text;   (* before `}` *)
+  w_end : text      (* after `}` *)
+}.
+Definition wsp_ok (p : wsp) : Prop :=
+  wsm (w_comma p) /\ wsm (w_sel p) /\ wsm (w_open p) /\ wsm (w_c1 p) /\ wsm (w_c2 p) /\
+  wsm (w_imp p) /\ wsm (w_s1 p) /\ wsm (w_s2 p) /\ wsm (w_close p) /\ wsm (w_end p).
+(* the canonical spelling:  `a, b { color: #ff0000 !important; display: none }` newline *)
+Definition sp1 : text := of_ascii [32].
+Definition canon : wsp := mkwsp sp1 sp1 sp1 [] sp1 sp1 [] sp1 sp1 (of_ascii [10]).
+
+Definition s_block : list N := [98;108;111;99;107].
+Definition decl_ok (d : declaration) : bool :=
+  match d_data d with
+  | DColor r g b | DBackgroundColor r g b => (r <? 256) && (g <? 256) && (b <? 256)
+  | DDisplay _ => true
+  | _ => false
+  end.
+Definition prop_name (d : decl) : list N :=
+  match d with
+  | DColor _ _ _ => p_color
+  | DBackgroundColor _ _ _ => p_background_color
+  | _ => p_display
+  end.
+Definition val_text (d : decl) : text :=
+  match d with
+  | DColor r g b | DBackgroundColor r g b => of_ascii [35] ++ hex6 r g b
+  | DDisplay true => of_ascii s_none
+  | _ => of_ascii s_block
+  end.
+Definition val_toks (d : decl) : list token :=
+  match d with
+  | DColor r g b | DBackgroundColor r g b => [THash (hex6 r g b)]
+  | DDisplay true => [TIdent (of_ascii s_none)]
+  | _ => [TIdent (of_ascii s_block)]
+  end.
+Definition imp_text (p : wsp) (i : bool) : text :=
+  if i then w_imp p ++ of_ascii [33] ++ of_ascii s_important else [].
+Definition imp_toks (i : bool) : list token :=
+  if i then [TDelim 33; TIdent (of_ascii s_important)] else [].
+
+Definition print_decl_ws (p : wsp) (d : declaration) : text :=
+  of_ascii (prop_name (d_data d)) ++ w_c1 p ++ of_ascii [58] ++ w_c2 p ++
+  val_text (d_data d) ++ imp_text p (d_important d).
+Definition print_decls_ws (p : wsp) (ds : list declaration) : text :=
+  match ds with
+  | [] => []
+  | d :: ds' => print_decl_ws p d ++
+                flat_map (fun d' => w_s1 p ++ of_ascii [59] ++ w_s2 p ++ print_decl_ws p d') ds'
+  end.
+Definition print_sels_ws (p : wsp) (ss : list selector) : text :=
+  match ss with
+  | [] => []
+  | s :: ss' => print_selector s ++
+                flat_map (fun s' => of_ascii [44] ++ w_comma p ++ print_selector s') ss'
+  end.
+Definition print_ruleset_ws (p : wsp) (r : cssruleset) : text :=
+  print_sels_ws p (crs_selectors r) ++ w_sel p ++ of_ascii [123] ++ w_open p ++
+  print_decls_ws p (crs_decls r) ++ w_close p ++ of_ascii [125] ++ w_end p.
+Definition print_ruleset : cssruleset -> text := print_ruleset_ws canon.
+
+(* a text at which a declaration value ends *)
+Definition vstop (K : text) : Prop :=
+  parse_token_not_semicolon K = PFail /\ nf identcont K /\ nf (fun x => x =? 40) K.
+
+Lemma len_app_lt : forall (a k : text), a <> [] -> (length k < length (a ++ k))%nat.
+Proof. intros a k H; rewrite app_length; destruct a; [congruence|cbn [length]; lia]. Qed.
+
+Lemma value_many : forall p data i K, wsm (w_imp p) -> decl_ok (mkdecl data i) = true -> vstop K ->
+  ManyR parse_token_not_semicolon (val_text data ++ imp_text p i ++ K) (val_toks data ++ imp_toks i) K.
+Proof.
+  intros p data i K Hw Hd (HK1 & HK2 & HK3).
+  (* the tail: [!important] then K *)
+  assert (Htail : ManyR parse_token_not_semicolon (imp_text p i ++ K) (imp_toks i) K /\
+                  nf identcont (imp_text p i ++ K) /\ nf (fun x => x =? 40) (imp_text p i ++ K)).
+  { destruct i; cbn [imp_text imp_toks app].
+    - rewrite <- !app_assoc. split; [|split].
+      + eapply MR_cons; [apply ptns_bang, Hw| |].
+        * rewrite !app_length; cbn [length of_ascii map]; lia.
+        * eapply MR_cons; [apply (ptns_word [] s_important K wsm_nil); auto; reflexivity
+                          |apply len_app_lt; discriminate|apply MR_nil, HK1].
+      + apply wsm_nf; [exact Hw|intros; cls|right; apply nf_lit; reflexivity].
+      + apply wsm_nf; [exact Hw|intros; cls|right; apply nf_lit; reflexivity].
+    - split; [apply MR_nil, HK1|split; assumption]. }
+  destruct Htail as (HT1 & HT2 & HT3).
+  unfold decl_ok in Hd; cbn [d_data] in Hd.
+  destruct data as [r g b|r g b| | | | |[|]| | |]; try discriminate; cbn [val_text val_toks app].
+  - rewrite <- app_assoc.
+    assert (Hr : r < 256 /\ g < 256 /\ b < 256) by lia. destruct Hr as (Hr & Hg & Hb).
+    eapply MR_cons; [apply (ptns_hash [] _ _ wsm_nil); [discriminate|apply hex6_body; assumption|exact HT2]
+                    |rewrite !app_length; cbn [length of_ascii map]; lia|exact HT1].
+  - rewrite <- app_assoc.
+    assert (Hr : r < 256 /\ g < 256 /\ b < 256) by lia. destruct Hr as (Hr & Hg & Hb).
+    eapply MR_cons; [apply (ptns_hash [] _ _ wsm_nil); [discriminate|apply hex6_body; assumption|exact HT2]
+                    |rewrite !app_length; cbn [length of_ascii map]; lia|exact HT1].
+  - eapply MR_cons; [apply (ptns_word [] s_none _ wsm_nil); auto; reflexivity
+                    |apply len_app_lt; discriminate|exact HT1].
+  - eapply MR_cons; [apply (ptns_word [] s_block _ wsm_nil); auto; reflexivity
+                    |apply len_app_lt; discriminate|exact HT1].
+Qed.
+
+Lemma parse_value_ok : forall p data i K, wsm (w_imp p) -> decl_ok (mkdecl data i) = true -> vstop K ->
+  parse_value (val_text data ++ imp_text p i ++ K) = POk (val_toks data, i) K.
+Proof.
+  intros p data i K Hw Hd HK. unfold parse_value.
+  rewrite (many0_R _ _ _ _ _ (value_many p data i K Hw Hd HK)). cbn [pbind].
+  unfold decl_ok in Hd; cbn [d_data] in Hd.
+  destruct data as [r g b|r g b| | | | |[|]| | |]; try discriminate; destruct i; reflexivity.
+Qed.
+
+Lemma decl_of_ok : forall data i, decl_ok (mkdecl data i) = true ->
+  decl_of (of_ascii (prop_name data)) (val_toks data) = data.
+Proof.
+  intros data i Hd. unfold decl_ok in Hd; cbn [d_data] in Hd.
+  destruct data as [r g b|r g b| | | | |[|]| | |]; try discriminate; cbn [prop_name val_toks].
+  - change (decl_of (of_ascii p_color) [THash (hex6 r g b)])
+      with (match parse_color [THash (hex6 r g b)] with Some (r, g, b) => DColor r g b | None => DUnknown end).
+    rewrite parse_color_hex by lia. reflexivity.
+  - change (decl_of (of_ascii p_background_color) [THash (hex6 r g b)])
+      with (match parse_color [THash (hex6 r g b)] with
+            | Some (r, g, b) => DBackgroundColor r g b | None => DUnknown end).
+    rewrite parse_color_hex by lia. reflexivity.
+  - reflexivity.
+  - reflexivity.
+Qed.
+
+Lemma prop_name_ident : forall data, ident_okb (of_ascii (prop_name data)) = true.
+Proof. intros data; destruct data; reflexivity. Qed.
+Lemma val_text_nf : forall (P : N -> bool) data k,
+  P 35 = false -> (forall x, is_lower x = true -> P x = false) -> nf P (val_text data ++ k).
+Proof.
+  intros P data k H35 Hl.
+  destruct data as [r g b|r g b| | | | |[|]| | |]; cbn [val_text]; rewrite <- ?app_assoc;
+    apply nf_lit; auto; apply Hl; reflexivity.
+Qed.
+Lemma print_decl_nf : forall (P : N -> bool) p d k,
+  (forall x, is_lower x = true -> P x = false) -> nf P (print_decl_ws p d ++ k).
+Proof.
+  intros P p d k Hl. unfold print_decl_ws. rewrite <- !app_assoc.
+  destruct (d_data d); apply nf_lit; apply Hl; reflexivity.
+Qed.
+
+Lemma parse_declaration_ok : forall p d K, wsp_ok p -> decl_ok d = true -> vstop K ->
+  parse_declaration (print_decl_ws p d ++ K) = POk d K.
+Proof.
+  intros p [data i] K Hp Hd HK.
+  destruct Hp as (_ & _ & _ & Hc1 & Hc2 & Himp & _).
+  unfold parse_declaration, print_decl_ws; cbn [d_data d_important]. rewrite <- !app_assoc.
+  rewrite parse_ident_ok;
+    [|apply prop_name_ident|apply wsm_nf; [exact Hc1|intros; cls|right; apply nf_lit; reflexivity]].
+  cbn [pbind]. cbv zeta.
+  rewrite skip_ws_wsm by (auto; apply nf_lit; reflexivity).
+  rewrite ptag_lit. cbn [pbind].
+  rewrite skip_ws_wsm; [|exact Hc2|apply val_text_nf; [reflexivity|intros; cls]].
+  rewrite (parse_value_ok p data i K Himp Hd HK). cbn [pbind fst snd].
+  rewrite (decl_of_ok data i Hd). reflexivity.
+Qed.
+
+(* ---- declaration lists ---- *)
+Lemma vstop_semi : forall w k, wsm w -> vstop (w ++ of_ascii [59] ++ k).
+Proof.
+  intros w k Hw; split; [apply ptns_semi, Hw|split];
+    (apply wsm_nf; [exact Hw|intros; cls|right; apply nf_lit; reflexivity]).
+Qed.
+Lemma vstop_close : forall w k, wsm w -> vstop (w ++ of_ascii [125] ++ k).
+Proof.
+  intros w k Hw; split; [apply ptns_close, Hw|split];
+    (apply wsm_nf; [exact Hw|intros; cls|right; apply nf_lit; reflexivity]).
+Qed.
+
+Lemma semi_item_ok : forall w1 w2 N, wsm w1 -> wsm w2 -> nf wsstart N ->
+  semi_item (w1 ++ of_ascii [59] ++ w2 ++ N) = POk tt N.
+Proof.
+  intros w1 w2 N H1 H2 HN. unfold semi_item.
+  rewrite skip_ws_wsm by (auto; apply nf_lit; reflexivity).
+  rewrite ptag_lit. cbn [pbind]. rewrite skip_ws_wsm by auto. reflexivity.
+Qed.
+Lemma semi_item_fail : forall w N, wsm w -> nf (fun x => wsstart x || (x =? 59)) N ->
+  semi_item (w ++ N) = PFail.
+Proof.
+  intros w N Hw HN. unfold semi_item.
+  rewrite skip_ws_wsm; [|exact Hw|eapply nf_imp; [|exact HN]; intros x Hx; cls].
+  rewrite ptag_nf by (eapply nf_imp; [|exact HN]; intros x Hx; cls). reflexivity.
+Qed.
+Lemma semi_sep_ok : forall w1 w2 N, wsm w1 -> wsm w2 -> nf (fun x => wsstart x || (x =? 59)) N ->
+  semi_sep (w1 ++ of_ascii [59] ++ w2 ++ N) = POk [tt] N.
+Proof.
+  intros w1 w2 N H1 H2 HN. unfold semi_sep. apply many1_R.
+  assert (HN' : nf wsstart N) by (eapply nf_imp; [|exact HN]; intros x Hx; cls).
+  eapply MR_cons; [apply semi_item_ok; auto| |apply MR_nil, (semi_item_fail [] N wsm_nil HN)].
+  rewrite !app_length; cbn [length of_ascii map]; lia.
+Qed.
+
+Section Decls.
+  Variable p : wsp.
+  Hypothesis Hp : wsp_ok p.
+  Variable Z : text.
+  Let K : text := w_close p ++ of_ascii [125] ++ Z.
+  Let tailf := fun d' => w_s1 p ++ of_ascii [59] ++ w_s2 p ++ print_decl_ws p d'.
+
+  Lemma vstop_tail : forall ds, vstop (flat_map tailf ds ++ K).
+  Proof.
+    destruct Hp as (_ & _ & _ & _ & _ & _ & Hs1 & _ & Hcl & _).
+    intros [|d ds]; cbn [flat_map app].
+    - apply vstop_close, Hcl.
+    - unfold tailf at 1. rewrite <- !app_assoc. apply vstop_semi, Hs1.
+  Qed.
+
+  Lemma decls_tail : forall ds, forallb decl_ok ds = true ->
+    SepR semi_sep parse_declaration (flat_map tailf ds ++ K) ds K.
+  Proof.
+    pose proof Hp as Hp'. destruct Hp' as (_ & _ & _ & _ & _ & _ & Hs1 & Hs2 & Hcl & _).
+    induction ds as [|d ds IH]; intros Hds; cbn [flat_map app].
+    - apply SR_nil. unfold semi_sep, K. apply many1_fail.
+      apply semi_item_fail; [exact Hcl|apply nf_lit; reflexivity].
+    - cbn [forallb] in Hds. apply andb_prop in Hds; destruct Hds as [Hd Hds].
+      unfold tailf at 1. rewrite <- !app_assoc.
+      eapply SR_cons.
+      + apply semi_sep_ok; auto. apply print_decl_nf. intros; cls.
+      + rewrite !app_length; cbn [length of_ascii map]; lia.
+      + apply parse_declaration_ok; auto. apply vstop_tail.
+      + rewrite !app_length; lia.
+      + apply IH, Hds.
+  Qed.
+
+  Lemma parse_rules_ok : forall ds, forallb decl_ok ds = true ->
+    exists K', parse_rules (skip_ws (w_open p ++ print_decls_ws p ds ++ K)) = POk ds K' /\
+               skip_ws K' = of_ascii [125] ++ Z.
+  Proof.
+    pose proof Hp as Hp'. destruct Hp' as (_ & _ & Hop & _ & _ & _ & Hs1 & Hs2 & Hcl & _).
+    intros [|d ds] Hds; cbn [print_decls_ws].
+    - exists (of_ascii [125] ++ Z). cbn [app]. unfold K. rewrite app_assoc.
+      rewrite skip_ws_wsm by (try apply wsm_app; auto; apply nf_lit; reflexivity).
+      split; [|apply skip_ws_id, nf_lit; reflexivity].
+      unfold parse_rules. apply separated_list0_nil.
+      unfold parse_declaration. rewrite parse_ident_fail by (apply nf_lit; reflexivity). reflexivity.
+    - exists K. rewrite <- app_assoc.
+      rewrite skip_ws_wsm by (auto; apply print_decl_nf; intros; cls).
+      cbn [forallb] in Hds. apply andb_prop in Hds; destruct Hds as [Hd Hds].
+      split; [|unfold K; apply skip_ws_wsm; auto; apply nf_lit; reflexivity].
+      unfold parse_rules. eapply separated_list0_R.
+      + apply parse_declaration_ok; auto. apply vstop_tail.
+      + apply decls_tail, Hds.
+  Qed.
+End Decls.
+
+(* ---- selector lists ---- *)
+Definition selstart (x : N) : bool :=
+  (x =? 46) || (x =? 35) || (x =? 42) || (x =? 58) || (x =? 45) || lowstart x.
+
+Lemma sel_first : forall (P : N -> bool) s k, wf_selector s = true ->
+  (forall x, selstart x = true -> P x = false) -> nf P (print_selector s ++ k).
+Proof.
+  intros P s k Hwf HP. unfold wf_selector in Hwf.
+  destruct (wf_src_inv _ Hwf) as (x & l' & El & Hx & _).
+  unfold print_selector. rewrite El, print_comps_cons, <- !app_assoc.
+  unfold wf_src in Hwf. rewrite El in Hwf.
+  assert (Hok : comp_ok x = true).
+  { destruct (forallb comp_ok (x :: l')) eqn:E; [|discriminate].
+    cbn [forallb] in E. apply andb_prop in E; tauto. }
+  apply nf_print; [exact Hok|]. apply HP.
+  destruct x; try discriminate; try reflexivity.
+  destruct (fc_elem n Hok) as [E|E]; unfold selstart; rewrite E; [reflexivity|].
+  repeat rewrite orb_true_r; reflexivity.
+Qed.
+
+Lemma print_selector_ne : forall s, wf_selector s = true -> print_selector s <> [].
+Proof.
+  intros s Hwf E. pose proof (sel_first (fun _ => true) s [] Hwf) as H.
+  rewrite E in H. cbn [app nf] in H.
+  unfold wf_selector in Hwf. destruct (wf_src_inv _ Hwf) as (x & l' & El & Hx & _).
+  unfold print_selector in E. rewrite El, print_comps_cons in E.
+  unfold wf_src in Hwf. rewrite El in Hwf.
+  assert (Hok : comp_ok x = true).
+  { destruct (forallb comp_ok (x :: l')) eqn:E'; [|discriminate].
+    cbn [forallb] in E'. apply andb_prop in E'; tauto. }
+  pose proof (print_comp_len x Hok) as Hl.
+  destruct (print_comp x); [cbn in Hl; lia|discriminate].
+Qed.
+
+Lemma comma_sep_ok : forall w N, wsm w -> nf wsstart N -> comma_sep (of_ascii [44] ++ w ++ N) = POk tt N.
+Proof.
+  intros w N Hw HN. unfold comma_sep. rewrite ptag_lit. cbn [pbind]. rewrite skip_ws_wsm by auto. reflexivity.
+Qed.
+
+Section Sels.
+  Variable p : wsp.
+  Hypothesis Hp : wsp_ok p.
+  Variable Z : text.
+  Let Zb : text := of_ascii [123] ++ Z.
+  Let tailf := fun s' => of_ascii [44] ++ w_comma p ++ print_selector s'.
+
+  Lemma sels_tail : forall ss s, wf_selector s = true -> forallb wf_selector ss = true ->
+    exists r0 r1, parse_selector (print_selector s ++ flat_map tailf ss ++ w_sel p ++ Zb) = POk s r0 /\
+                  SepR comma_sep parse_selector r0 ss r1 /\ skip_ws r1 = Zb.
+  Proof.
+    pose proof Hp as Hp'. destruct Hp' as (Hco & Hse & _).
+    assert (HZ : nf selcont Zb) by (apply nf_lit; reflexivity).
+    induction ss as [|s2 ss IH]; intros s Hs Hss; cbn [flat_map app].
+    - destruct (pseudo_el s) eqn:Epe.
+      + (* pseudo-element: the whitespace stays *)
+        exists (w_sel p ++ Zb), (w_sel p ++ Zb). split; [|split].
+        * apply parse_selector_rt; [exact Hs|congruence].
+        * apply SR_nil. unfold comma_sep. rewrite ptag_nf; [reflexivity|].
+          apply wsm_nf; [exact Hse|intros; cls|right; apply nf_lit; reflexivity].
+        * apply skip_ws_wsm; [exact Hse|apply nf_lit; reflexivity].
+      + exists Zb, Zb. split; [|split].
+        * destruct (w_sel p) as [|c w] eqn:Ew.
+          -- cbn [app]. apply parse_selector_rt; [exact Hs|intros _; exact HZ].
+          -- rewrite <- Ew. apply parse_selector_rt_ws; auto. rewrite Ew; discriminate.
+        * apply SR_nil. unfold comma_sep. rewrite ptag_nf by (apply nf_lit; reflexivity). reflexivity.
+        * apply skip_ws_id, nf_lit; reflexivity.
+    - cbn [forallb] in Hss. apply andb_prop in Hss; destruct Hss as [Hs2 Hss].
+      destruct (IH s2 Hs2 Hss) as (r0 & r1 & Hp2 & HS & Hr1).
+      unfold tailf at 1. rewrite <- !app_assoc.
+      eexists; exists r1. split; [|split; [|exact Hr1]].
+      + apply parse_selector_rt; [exact Hs|intros _; apply nf_lit; reflexivity].
+      + eapply SR_cons.
+        * apply comma_sep_ok; [exact Hco|]. apply sel_first; [exact Hs2|]. intros x Hx; unfold selstart in Hx; cls.
+        * rewrite !app_length; cbn [length of_ascii map]; lia.
+        * exact Hp2.
+        * pose proof (parse_selector_B (print_selector s2 ++ flat_map tailf ss ++ w_sel p ++ Zb)) as HB.
+          rewrite Hp2 in HB. cbn [B] in HB. lia.
+        * exact HS.
+  Qed.
+
+  Lemma sels_ok : forall ss, ss <> [] -> forallb wf_selector ss = true ->
+    exists r1, separated_list0 comma_sep parse_selector (print_sels_ws p ss ++ w_sel p ++ Zb) = POk ss r1 /\
+               skip_ws r1 = Zb.
+  Proof.
+    intros [|s ss] Hne Hss; [congruence|]. cbn [forallb] in Hss. apply andb_prop in Hss; destruct Hss as [Hs Hss].
+    destruct (sels_tail ss s Hs Hss) as (r0 & r1 & H0 & HS & Hr1).
+    exists r1; split; [|exact Hr1]. cbn [print_sels_ws]. rewrite <- !app_assoc.
+    eapply separated_list0_R; eauto.
+  Qed.
+End Sels.
